@@ -1,26 +1,31 @@
 #!/bin/bash
 # Mutation sweep, stage A: which mutants compile and survive the pinned test suite?
-# usage: mutstageA.sh <mutdir> <jobs>     (results: <mutdir>/<id>.A = nocompile|killed|survived)
-M=$1; J=${2:-10}
+# usage: mutstageA.sh <mutdir> <jobs> [redo-killed]   (results: <mutdir>/<id>.A = nocompile|killed|survived, <id>.fail = failing tests)
+# Two tests of the pinned suite are load sensitive (segment.TestConcurrentReadersAndWriter has a 10 s wall-clock limit,
+# segment.TestFrameCodecFuzz flakes ~1/40): a mutant whose only failures are those is re-run up to twice.
+M=$1; J=${2:-8}; REDO=${3:-}
 export GOFLAGS=-mod=mod GOPROXY=off GOSUMDB=off GOTOOLCHAIN=local
 BASE=$M/../base
 rm -rf $BASE; mkdir -p $BASE && git -C /repo archive HEAD | tar -x -C $BASE
 one() {
-  id=$1; M=$2; BASE=$M/../base; W=$M/../w/$id
-  [ -f $M/$id.A ] && return
+  id=$1; M=$2; REDO=$3; BASE=$M/../base; W=$M/../w/$id
+  if [ -f $M/$id.A ]; then
+    [ "$REDO" = redo-killed ] && [ "$(cat $M/$id.A)" = killed ] && [ ! -f $M/$id.fail ] || return
+  fi
   rm -rf $W; mkdir -p $W && cp -r $BASE/. $W/ && cd $W || return
   if ! patch -p1 -s < $M/$id.diff >/dev/null 2>&1; then echo nopatch > $M/$id.A; rm -rf $W; return; fi
   if ! timeout 300 go build ./... >/dev/null 2>&1 || ! timeout 300 go vet ./... >/dev/null 2>&1; then echo nocompile > $M/$id.A; rm -rf $W; return; fi
-  out=$(timeout 600 go test -vet=off -count=1 ./... 2>&1); rc=$?
-  if [ $rc -ne 0 ]; then
-    # the one known flake: re-run once if it is the only failure
-    if echo "$out" | grep -q -- "--- FAIL: TestFrameCodecFuzz" && [ "$(echo "$out" | grep -c -- '^--- FAIL')" = 1 ]; then
-      out=$(timeout 600 go test -vet=off -count=1 ./... 2>&1); rc=$?
-    fi
-  fi
-  if [ $rc -ne 0 ]; then echo killed > $M/$id.A; else echo survived > $M/$id.A; fi
+  for try in 1 2 3; do
+    out=$(timeout 600 go test -vet=off -count=1 ./... 2>&1 | tr -d '\000'); rc=$?
+    fails=$(echo "$out" | grep -E -- '^\s*--- FAIL|^panic:|^FAIL\s' | sort -u)
+    [ $rc -eq 0 ] && [ -z "$fails" ] && break
+    hard=$(echo "$out" | grep -E -- '^--- FAIL|^panic:' | grep -v -E 'TestFrameCodecFuzz|TestConcurrentReadersAndWriter')
+    [ -n "$hard" ] && break
+    # a package-level FAIL without any test-level failure other than the load-sensitive ones: timeout etc. -> retry
+  done
+  if [ -z "$fails" ]; then echo survived > $M/$id.A; rm -f $M/$id.fail; else echo killed > $M/$id.A; echo "$fails" | head -12 > $M/$id.fail; fi
   rm -rf $W
 }
 export -f one
-ls $M/*.diff | xargs -n1 basename | sed 's/.diff//' | xargs -P $J -I{} bash -c "one {} $M"
+ls $M/*.diff | xargs -n1 basename | sed 's/.diff//' | xargs -P $J -I{} bash -c "one {} $M $REDO"
 echo "stage A: $(cat $M/*.A | sort | uniq -c | tr '\n' ' ')"
